@@ -767,6 +767,7 @@ func TestC17Elig(t *testing.T) {
 		rep.States++
 		rep.Transitions += int64(len(res.Events))
 		rep.Nontrivial++
+		rep.Sample(map[string]interface{}{"mask": mask, "options": desc}, 4)
 		rep.Outcome(res.Outcome)
 		if res.Viol != "" {
 			rep.Violate(res.Class, res.Viol, map[string]interface{}{"mask": mask})
